@@ -5,6 +5,7 @@ import (
 	"errors"
 	"fmt"
 	"io"
+	"math"
 	"reflect"
 	"strings"
 
@@ -653,8 +654,20 @@ func streamWrappers(rep *Report, tier string, seed uint64) {
 				var orc []string
 				// user methods that call back into the printer (nested Print/Printf) while a wrapper is in force
 				if r.Chance(15) {
-					cb := callbackFmtr{safe: safeStr(i % 50), unsafe: unsafeStr(i%50, 0), usePrintf: r.Bool()}
-					if r.Bool() {
+					cb := callbackFmtr{safe: safeStr(i % 50), unsafe: unsafeStr(i%50, 0), usePrintf: r.Bool(), join: r.Intn(4)}
+					if r.Chance(33) {
+						// a plain fmt.Formatter that discovers the SafePrinter behind its fmt.State, under Safe()
+						wv := redact.Safe(cb)
+						if r.Bool() {
+							wv = redact.Safe(redact.Unsafe(cb))
+						}
+						out, pm := rSprint([]interface{}{wv})
+						if pm != "" {
+							orc = append(orc, "C11:print call panicked: "+pm)
+						} else if hasMarker(out) && cb.join != 3 {
+							orc = append(orc, fmt.Sprintf("C06:Safe(Formatter calling back through the SafePrinter, join=%d) produced an envelope: %q", cb.join, out))
+						}
+					} else if r.Bool() {
 						out, pm := rSprint([]interface{}{redact.Unsafe(cb)})
 						if pm != "" {
 							orc = append(orc, "C11:print call panicked: "+pm)
@@ -667,7 +680,8 @@ func streamWrappers(rep *Report, tier string, seed uint64) {
 						out, pm := rSprint([]interface{}{redact.Safe(callbackSF{cb})})
 						if pm != "" {
 							orc = append(orc, "C11:print call panicked: "+pm)
-						} else if hasMarker(out) {
+						} else if hasMarker(out) && cb.join != 3 {
+							// (join = 3 prints a finished redactable, which keeps its own envelopes under Safe)
 							orc = append(orc, fmt.Sprintf("C06:Safe(SafeFormatter calling back through Print/Printf) produced an envelope: %q", out))
 						}
 					}
@@ -742,9 +756,18 @@ func streamWrappers(rep *Report, tier string, seed uint64) {
 type callbackFmtr struct {
 	safe, unsafe string
 	usePrintf    bool
+	join         int // 1: JoinTo over strings, 2: JoinTo over mixed values, 3: a Join result printed
 }
 
 func (c callbackFmtr) run(sp redact.SafePrinter) {
+	switch c.join {
+	case 1:
+		redact.JoinTo(sp, ", ", []string{c.unsafe, "bob"})
+	case 2:
+		redact.JoinTo(sp, "|", []interface{}{c.unsafe, redact.Safe(3), redact.SafeString(c.safe)})
+	case 3:
+		sp.Print(redact.Join(" / ", []redact.RedactableString{redact.Sprint(c.unsafe), redact.Sprint(7)}))
+	}
 	if c.usePrintf {
 		sp.Printf("cb %s|%d|%v", c.unsafe, redact.Safe(7), redact.SafeString(c.safe))
 	} else {
@@ -865,10 +888,19 @@ func streamCompose(rep *Report, tier string, seed uint64) {
 					orc = append(orc, fmt.Sprintf("C08:redactable inside a Safe()/SafeValue container: got %q", o4))
 				}
 				// containers
-				shape := r.Intn(5)
+				shape := r.Intn(9)
 				var cont interface{}
 				var want string
 				switch shape {
+				case 5:
+					// keys that fmtsort has to order without being able to look them up again (NaN != NaN)
+					cont, want = map[float64]redact.RedactableString{math.NaN(): rs}, "map[‹NaN›:"+string(rs)+"]"
+				case 6:
+					cont, want = map[interface{}]interface{}{float32(math.NaN()): arg}, "map[‹NaN›:"+string(rs)+"]"
+				case 7:
+					cont, want = map[[2]float64]redact.RedactableString{{math.NaN(), 1}: rs}, "map[[‹NaN› ‹1›]:"+string(rs)+"]"
+				case 8:
+					cont, want = map[string]redact.RedactableBytes{"": rs.ToBytes()}, "map[:"+string(rs)+"]" // (an empty unsafe key leaves no envelope)
 				case 0:
 					cont, want = []interface{}{arg}, "["+string(rs)+"]"
 				case 1:
@@ -1170,6 +1202,12 @@ func streamRoutes(rep *Report, tier string, seed uint64) {
 			defer resetRegistry()
 			for i := 0; i < n; i++ {
 				regCfg(r.Intn(16)).apply()
+				if r.Chance(4) {
+					// an earlier call in which a nested printer was left by a propagating panic (a panic while a
+					// panic payload was being printed, inside a SafeFormat's Print): whatever printer the next
+					// calls receive, the routes must still agree
+					safely(func() { redact.Sprint(viaSF{"", []interface{}{pString{pString{"deep"}}}}) })
+				}
 				c := genCase(r, GenOpts{MaxDepth: 3, NoPanics: r.Chance(80)}, r.Chance(30))
 				args := buildArgs(c.vals, 0)
 				var orc []string
@@ -1181,50 +1219,87 @@ func streamRoutes(rep *Report, tier string, seed uint64) {
 					s, pm = rSprintf(c.f, args)
 				}
 				if pm != "" {
-					emit(Case{Real: c.desc() + " => PANIC", Nontriv: false, Kind: "panic"})
+					// the flat routes (no enclosing user method to catch it) must agree on panicking too
+					var orcp []string
+					pmF := safely(func() {
+						if c.f == "" {
+							redact.Fprint(&recWriter{mode: 0}, args...)
+						} else {
+							redact.Fprintf(&recWriter{mode: 0}, c.f, args...)
+						}
+					})
+					pmB := safely(func() {
+						var sb redact.StringBuilder
+						if c.f == "" {
+							sb.Print(args...)
+						} else {
+							sb.Printf(c.f, args...)
+						}
+					})
+					if pmF == "" || pmB == "" {
+						orcp = append(orcp, fmt.Sprintf("C16:the S-variant panics (%s) but Fprint/StringBuilder route do not (%q, %q)", pm, pmF, pmB))
+					}
+					emit(Case{Real: c.desc() + " => PANIC", Oracle: orcp, Nontriv: false, Kind: "panic"})
 					continue
 				}
-				for mode := 0; mode < 4; mode++ {
-					w := &recWriter{mode: mode}
-					var nn int
-					var err error
+				{
+					// ... and when it does not panic, neither do they
+					pmF := safely(func() {
+						if c.f == "" {
+							redact.Fprint(&recWriter{mode: 0}, args...)
+						} else {
+							redact.Fprintf(&recWriter{mode: 0}, c.f, args...)
+						}
+					})
+					if pmF != "" {
+						orc = append(orc, fmt.Sprintf("C16:the S-variant returns but Fprint panics: %s", pmF))
+					}
+				}
+				if pmR := safely(func() {
+					for mode := 0; mode < 4; mode++ {
+						w := &recWriter{mode: mode}
+						var nn int
+						var err error
+						if c.f == "" {
+							nn, err = redact.Fprint(w, args...)
+						} else {
+							nn, err = redact.Fprintf(w, c.f, args...)
+						}
+						if len(w.calls) != 1 || !bytes.Equal(w.calls[0], s) {
+							orc = append(orc, fmt.Sprintf("C16:F-variant did not deliver the S-variant's bytes in a single Write: %q vs %q", w.calls, s))
+						}
+						wantN, wantErr := len(s), error(nil)
+						if mode == 1 {
+							wantN, wantErr = 0, errWriter
+						} else if mode == 2 {
+							wantN, wantErr = len(s)/2, io.ErrShortWrite
+						}
+						if nn != wantN || err != wantErr {
+							orc = append(orc, fmt.Sprintf("C16:F-variant returned (%d,%v), writer said (%d,%v)", nn, err, wantN, wantErr))
+						}
+					}
+					var sb redact.StringBuilder
+					var viaN, viaF redact.RedactableString
 					if c.f == "" {
-						nn, err = redact.Fprint(w, args...)
+						sb.Print(args...)
+						viaN = redact.Sprintfn(func(w redact.SafePrinter) { w.Print(args...) })
 					} else {
-						nn, err = redact.Fprintf(w, c.f, args...)
+						sb.Printf(c.f, args...)
+						viaN = redact.Sprintfn(func(w redact.SafePrinter) { w.Printf(c.f, args...) })
 					}
-					if len(w.calls) != 1 || !bytes.Equal(w.calls[0], s) {
-						orc = append(orc, fmt.Sprintf("C16:F-variant did not deliver the S-variant's bytes in a single Write: %q vs %q", w.calls, s))
+					viaF = redact.Sprint(viaSF{c.f, args})
+					m := mergeAdj(s)
+					if got := mergeAdj([]byte(sb.RedactableString())); !bytes.Equal(got, m) {
+						orc = append(orc, fmt.Sprintf("C16:StringBuilder route differs: %q vs %q", got, m))
 					}
-					wantN, wantErr := len(s), error(nil)
-					if mode == 1 {
-						wantN, wantErr = 0, errWriter
-					} else if mode == 2 {
-						wantN, wantErr = len(s)/2, io.ErrShortWrite
+					if got := mergeAdj([]byte(viaN)); !bytes.Equal(got, m) {
+						orc = append(orc, fmt.Sprintf("C16:SafePrinter route (Sprintfn) differs: %q vs %q", got, m))
 					}
-					if nn != wantN || err != wantErr {
-						orc = append(orc, fmt.Sprintf("C16:F-variant returned (%d,%v), writer said (%d,%v)", nn, err, wantN, wantErr))
+					if got := mergeAdj([]byte(viaF)); !bytes.Equal(got, m) {
+						orc = append(orc, fmt.Sprintf("C16:SafePrinter route (SafeFormat) differs: %q vs %q", got, m))
 					}
-				}
-				var sb redact.StringBuilder
-				var viaN, viaF redact.RedactableString
-				if c.f == "" {
-					sb.Print(args...)
-					viaN = redact.Sprintfn(func(w redact.SafePrinter) { w.Print(args...) })
-				} else {
-					sb.Printf(c.f, args...)
-					viaN = redact.Sprintfn(func(w redact.SafePrinter) { w.Printf(c.f, args...) })
-				}
-				viaF = redact.Sprint(viaSF{c.f, args})
-				m := mergeAdj(s)
-				if got := mergeAdj([]byte(sb.RedactableString())); !bytes.Equal(got, m) {
-					orc = append(orc, fmt.Sprintf("C16:StringBuilder route differs: %q vs %q", got, m))
-				}
-				if got := mergeAdj([]byte(viaN)); !bytes.Equal(got, m) {
-					orc = append(orc, fmt.Sprintf("C16:SafePrinter route (Sprintfn) differs: %q vs %q", got, m))
-				}
-				if got := mergeAdj([]byte(viaF)); !bytes.Equal(got, m) {
-					orc = append(orc, fmt.Sprintf("C16:SafePrinter route (SafeFormat) differs: %q vs %q", got, m))
+				}); pmR != "" {
+					orc = append(orc, "C16:the S-variant returns but another route panics: "+pmR)
 				}
 				emit(Case{Real: c.desc() + " => " + string(s), Oracle: orc, Nontriv: hasMarker(s), Kind: kindOf(c)})
 			}
